@@ -314,6 +314,116 @@ theorem C05_notify_ops_delivered_in_the_same_bar (b : BarScript) (fuel : Nat) (t
   obtain ⟨d1, d2⟩ := barTailG_deliveries b fuel ts price st
   exact ⟨t1, by rw [t2, t3], d1, d2⟩
 
+/-- the deliveries of a whole bar are an initial stretch of: what was pending when the bar began, then everything the bar records -/
+theorem core_barStepG_deliveries (cfg : Cfg) (b : BarScript) (fuel tfuel row : Nat) (ts : Int) (st : St) :
+    (barStepG cfg b fuel tfuel row ts st).1.filterMap notifyAct <+: st.cur ++ recOf (barStepG cfg b fuel tfuel row ts st).1 := by
+  unfold barStepG
+  split
+  · exact List.nil_prefix
+  · rename_i price _
+    obtain ⟨q1, _, _, q4, _⟩ := barHeadG_quiet cfg b tfuel row ts price st
+    cases hh : (barHeadG cfg b tfuel row ts price st).2.2 with
+    | some e => rw [andThen_err hh, q4]; exact List.nil_prefix
+    | none =>
+      rw [andThen_ok hh]
+      obtain ⟨d1, _⟩ := barTailG_deliveries b fuel ts price (barHeadG cfg b tfuel row ts price st).2.1
+      show List.filterMap notifyAct ((barHeadG cfg b tfuel row ts price st).1 ++
+          (barTailG b fuel ts price (barHeadG cfg b tfuel row ts price st).2.1).1) <+:
+        st.cur ++ recOf ((barHeadG cfg b tfuel row ts price st).1 ++ (barTailG b fuel ts price (barHeadG cfg b tfuel row ts price st).2.1).1)
+      rw [List.filterMap_append, q4, List.nil_append, recOf_append, ← List.append_assoc, ← q1]
+      exact d1
+
+theorem core_barStepG_onTime (cfg : Cfg) (b : BarScript) (fuel tfuel row : Nat) (ts : Int) (st : St) (hcur : ∀ a ∈ st.cur, a.stamp = ts) :
+    ∀ e ∈ (barStepG cfg b fuel tfuel row ts st).1, NotifyOnTime e := by
+  intro e he
+  have hts := barStepG_ts cfg b fuel tfuel row ts st
+  cases e with
+  | notify t tag stamp m =>
+    have hmem : (⟨tag, stamp, m⟩ : Act) ∈ (barStepG cfg b fuel tfuel row ts st).1.filterMap notifyAct :=
+      List.mem_filterMap.mpr ⟨_, he, rfl⟩
+    have hin := (core_barStepG_deliveries cfg b fuel tfuel row ts st).subset hmem
+    have ht : t = ts := by simpa [Ev.ts] using hts _ he
+    show t = stamp
+    rw [ht]
+    rcases List.mem_append.mp hin with h' | h'
+    · exact (hcur _ h').symm
+    · exact (recOf_stamp hts _ h').symm
+  | _ => trivial
+
+theorem core_runBarsG_onTime (cfg : Cfg) (g : GScript) : ∀ (bars : List Int) (row : Nat) (st : St),
+    (∀ a ∈ st.cur, ∀ t ∈ bars.head?, a.stamp = t) → ∀ e ∈ (runBarsG cfg g row bars st).1, NotifyOnTime e
+  | [], _, _, _ => fun e he => nomatch he
+  | ts :: bars, row, st, hcur => by
+    have h1 := core_barStepG_onTime cfg (g.bar row) g.fuel g.tfuel row ts st (fun a ha => hcur a ha ts rfl)
+    simp only [runBarsG]
+    cases hb : (barStepG cfg (g.bar row) g.fuel g.tfuel row ts st).2.2 with
+    | some e => rw [andThen_err hb]; exact h1
+    | none =>
+      rw [andThen_ok hb]
+      intro e he
+      rcases List.mem_append.mp he with h | h
+      · exact h1 e h
+      · refine core_runBarsG_onTime cfg g bars (row + 1) _ ?_ e h
+        intro a ha
+        rw [barStepG_cur_nil cfg _ _ _ row ts st hb] at ha
+        cases ha
+
+/-- **C05 — every delivery happens in the bar its action is stamped with**, for every script (hooks that trade from `notify`, change the trigger
+    list, raise) and every outcome: a `notify` call made at bar `t` hands over an action stamped `t` — the action was recorded in this very bar
+    (for the first bar: or by `initialize()`, which runs under the first bar's timestamp) -/
+theorem C05_notify_ops_every_delivery_in_its_own_bar (cfg : Cfg) (trigs : List Trig) (g : GScript) :
+    ∀ e ∈ (runG cfg trigs g).trace, NotifyOnTime e := by
+  rcases core_runG_cases cfg trigs g with ⟨e, he⟩ | ⟨ts0, bars, hr⟩
+  · rw [he g]; intro x hx; rw [List.mem_singleton.mp hx]; trivial
+  · rw [hr g]
+    have hinit : ∀ e ∈ (initG cfg trigs g ts0).1, NotifyOnTime e ∧ e.ts = some ts0 := by
+      unfold initG
+      rw [andThen_okRes]
+      intro e he
+      rcases List.mem_append.mp he with h | h
+      · rcases List.mem_append.mp h with h' | h'
+        · have := (setAllFrom_at cfg ts0 0 0 cfg.markets e h')
+          exact ⟨by cases e <;> first | trivial | (simp [Ev.phase, stagePhase] at this), this.1⟩
+        · rw [List.mem_singleton.mp h']; exact ⟨trivial, rfl⟩
+      · have hq := (runStmts_quiet ts0 .init g.init ⟨(setAllFrom cfg ts0 0 0 cfg.markets).2, trigs, [], [], []⟩).2.2.2.1
+        have ht := runStmts_ts ts0 .init g.init ⟨(setAllFrom cfg ts0 0 0 cfg.markets).2, trigs, [], [], []⟩ e h
+        refine ⟨?_, ht⟩
+        cases e with
+        | notify t tag stamp m =>
+          have : (⟨tag, stamp, m⟩ : Act) ∈ (runStmts ts0 .init g.init ⟨(setAllFrom cfg ts0 0 0 cfg.markets).2, trigs, [], [], []⟩).1.filterMap notifyAct :=
+            List.mem_filterMap.mpr ⟨_, h, rfl⟩
+          rw [hq] at this; cases this
+        | _ => trivial
+    have hcore : ∀ e ∈ (runCore cfg trigs g ts0 bars).1.1, NotifyOnTime e := by
+      cases hie : (initG cfg trigs g ts0).2.2 with
+      | some e => rw [core_runCore_err hie]; exact fun e he => (hinit e he).1
+      | none =>
+        rw [core_runCore_ok hie, andThen_ok hie]
+        intro e he
+        rcases List.mem_append.mp he with h | h
+        · exact (hinit e h).1
+        · refine core_runBarsG_onTime cfg g (ts0 :: bars) 0 _ ?_ e h
+          intro a ha t ht
+          simp only [List.head?_cons, Option.mem_def, Option.some.injEq] at ht
+          rw [← ht]
+          have hq : (initG cfg trigs g ts0).2.1.cur = recOf (initG cfg trigs g ts0).1 := by
+            have := (initG_quiet cfg trigs g ts0).1
+            simpa using this
+          rw [hq] at ha
+          exact recOf_stamp (fun e he => (hinit e he).2) a ha
+    unfold finishG
+    cases (runCore cfg trigs g ts0 bars).1.2.2 with
+    | none =>
+      intro e he
+      rcases List.mem_append.mp he with h | h
+      · exact hcore e h
+      · rw [List.mem_singleton.mp h]; trivial
+    | some x =>
+      intro e he
+      rcases List.mem_append.mp he with h | h
+      · exact hcore e h
+      · rw [List.mem_singleton.mp h]; trivial
+
 /-! ### non-vacuity: concrete runs (the two markets of `Core.exCfg`: a minutely one with four bars from 08:58 and an hourly one) -/
 
 /-- trades in `on_bar` of every bar, answers the delivery of `o2` from inside `notify` with another trade; a trigger due on every bar whose action
